@@ -295,6 +295,7 @@ static void mode_random(args const &a)
 			o.kind = 0; o.key = r.pick(keys);
 			size_t len = pressure ? (r.chance(1, 10) ? r.below((uint32_t)shm / 3) : r.below(30000)) : (r.chance(1, 50) ? r.below(70000) : r.below(40));
 			o.value = "v" + std::to_string(++val) + ":" + std::string(len, (char)('a' + val % 26));
+			if (r.chance(1, 12)) { o.value.clear(); O().count("stores_of_empty_value"); }     // truly empty values too (the model needs no unique values)
 			int nt = r.chance(1, 20) ? r.range(5, 30) : r.below(4);
 			for (int t = 0; t < nt; t++) o.trig.insert(r.chance(1, 15) ? "t" + std::to_string(r.below(1000)) : r.pick(trigs));
 			if (r.chance(1, 8)) o.trig.insert(o.key);
